@@ -23,7 +23,7 @@ import json, sys, os
 P, mapf = sys.argv[1], sys.argv[2]
 m = dict(l.split() for l in open(mapf) if l.strip())
 kf = json.load(open('known_findings.json'))
-have = {(f['property'], f.get('key'), f.get('status')) for f in kf['findings']}
+have = {(f['property'], f.get('key'), f.get('status'), f.get('commit')) for f in kf['findings']}
 fp = f'findings/{P}.json'
 n = 0
 if os.path.exists(fp):
@@ -33,9 +33,9 @@ if os.path.exists(fp):
             new = m[c[:7]]
             f['what'] = f['what'].replace(c, new).replace(c[:7], new)
             f['commit'] = new
-        elif c and f['status'] == 'fixed' and (f['property'], f.get('key'), 'fixed') in have:
+        elif c and f['status'] == 'fixed' and any(h[:3] == (f['property'], f.get('key'), 'fixed') for h in have):
             continue
-        if (f['property'], f.get('key'), f.get('status')) in have:
+        if (f['property'], f.get('key'), f.get('status'), f.get('commit')) in have:
             continue
         if f['status'] == 'fixed' and not f['what'].startswith('fixed:'):
             f['what'] = f"fixed: property={f['property']} {f['commit']} " + f['what']
